@@ -159,12 +159,15 @@ def render(body, name='f'):
     lines = ['def %s(a, b=0):' % name]
     # handler types and raised classes are not part of the skeleton: they rotate through the kinds below, starting at a
     # position derived from the skeleton, so that every kind occurs in every syntactic position across the space
-    ctx = {'h': len(repr(body)) % 7, 'r': len(repr(body)) % 5}
+    ctx = {'h': len(repr(body)) % 7, 'r': len(repr(body)) % 5, 's': len(repr(body)) % len(SIMPLE_KINDS)}
     _block(body, 1, lines, ctx)
     return '\n'.join(lines) + '\n'
 
 
 HANDLER_KINDS = ['E%d', 'Exception', '(E0, E1)', 'BaseException', 'KeyError', 'E%d', None]   # None: bare `except:` (last clause only)
+# every kind of simple statement `_process_basic_statement` handles (the plain leaf `S` rotates through them)
+SIMPLE_KINDS = ['x = a', 'x: int = a', 'x += a', 'g(a)', 'n: int', 'del x', 'pass', 'import os', 'from os import path',
+                'global G', 'nonlocal N', 'assert a', 'assert a, b', 'x = y = a']
 RAISE_KINDS = ['raise E(a)', 'raise E(a)', 'raise E0(a)', 'raise E(a)', 'raise BX(a)']
 
 
@@ -179,7 +182,11 @@ def _stmt(s, ind, lines, ctx):
     p = '    ' * ind
     k = s[0]
     if k == 'S':
-        lines.append(p + 'x = a')
+        if len(s) > 1:
+            lines.append(p + s[1])                     # explicit text (targeted families)
+        else:
+            lines.append(p + SIMPLE_KINDS[ctx['s'] % len(SIMPLE_KINDS)])
+            ctx['s'] += 1
     elif k == 'L':
         lines.append(p + 'x = g(lambda u=(lambda: 0): u, key=lambda: (lambda: 1))')
     elif k == 'RET':
@@ -327,6 +334,78 @@ def nested_try_family():
                                     if 'brk' in (ending, reach) or 'cont' in (ending, reach):
                                         body = [('WHILE', body, []), S]
                                     out.append(body)
+    return out
+
+
+def _leaf_positions(body):
+    """paths of the plain leaves `('S',)` of a skeleton"""
+    out = []
+
+    def go(ss, path):
+        for k, st in enumerate(ss):
+            if st == ('S',):
+                out.append(path + (k,))
+            else:
+                for j, part in enumerate(st[1:], 1):
+                    if isinstance(part, list):
+                        if part and isinstance(part[0], list):        # the handler list of a TRY
+                            for h, hb in enumerate(part):
+                                go(hb, path + (k, j, h))
+                        else:
+                            go(part, path + (k, j))
+    go(body, ())
+    return out
+
+
+def _replace(body, path, new):
+    if len(path) == 1:
+        return body[:path[0]] + [new] + body[path[0] + 1:]
+    k = path[0]
+    st = list(body[k])
+    j = path[1]
+    if len(path) >= 3 and st[j] and isinstance(st[j][0], list):
+        hs = list(st[j])
+        hs[path[2]] = _replace(hs[path[2]], path[3:], new)
+        st[j] = hs
+    else:
+        st[j] = _replace(st[j], path[2:], new)
+    return body[:k] + [tuple(st)] + body[k + 1:]
+
+
+LEAF_KINDS = [('S', t) for t in SIMPLE_KINDS] + [('RET',), ('RAISE', 'raise E(a)'), ('DEF',), ('CLS',), ('L',), ('RETL',)]
+
+
+def leaf_kind_family():
+    """Targeted exhaustive family (every quick run): EVERY plain-statement position of every small skeleton
+    (`Space(3, 2)`) is filled with EVERY leaf kind once — all simple statements the builder treats as basic statements
+    (Assign, AnnAssign with and without value, AugAssign, Expr, Delete, Pass, Import, ImportFrom, Global, Nonlocal, Assert),
+    return, raise, nested def / class, lambda-bearing statements — and inside a loop also break / continue; plus explicit
+    contexts that need more than three statements: the leaf as first (or only) statement of a try body, handler, else block,
+    finally block (with and without handlers), loop body, loop else, with body, if branch, followed or not by a statement.
+    A visitor that drops one statement kind is therefore executed by the trace oracle in every syntactic position."""
+    out = []
+    sp = Space(3, 2)
+    for i in range(sp.size):
+        body = sp.unrank(i)
+        for path in _leaf_positions(body):
+            for leaf in LEAF_KINDS:
+                out.append(_replace(body, path, leaf))
+    P = ('S', 'x = a')
+    for leaf in LEAF_KINDS + [('BRK',), ('CONT',)]:
+        for tail in ([], [P]):
+            hole = [leaf] + tail
+            ctxs = []
+            if leaf[0] not in ('BRK', 'CONT'):
+                ctxs += [
+                    [('TRY', hole, [[P]], [P], [P])], [('TRY', [P], [hole], [P], [P])], [('TRY', [P], [[P]], hole, [P])],
+                    [('TRY', [P], [[P]], [P], hole)], [('TRY', [P], [], [], hole)], [('TRY', hole, [], [], [P])],
+                    [('TRY', [P], [[P], hole], [], [])], [('WITH', hole)], [('IF', hole, [P])], [('IF', [P], hole)],
+                    [('WHILE', [P], hole)], [('FOR', [P], hole)], [('TRY', [('TRY', [P], [], [], hole)], [], [], hole)],
+                ]
+            ctxs += [[('WHILE', hole, [])], [('FOR', hole, [P])], [('WHILE', [('TRY', hole, [[P]], [], [P])], [])],
+                     [('FOR', [('TRY', [P], [hole], [P], [])], [])], [('WHILE', [('TRY', [P], [], [], [P]), ('IF', hole, [])], [])]]
+            for c in ctxs:
+                out.append(c + [P])
     return out
 
 
